@@ -262,14 +262,17 @@ def configs(tier):
     add("spot", scenario="stale-clock", sym_prices=False)
     if tier == "thorough":
         full = _schedules(3, 3)
-        for v in ("spot", "spot-fees-latency", "feature", "future", "chain"):
-            for s in full:
+        for s in full:                                   # both environments reset + 2 steps: all 20
+            add("spot", scenario="interleave", schedule=s, sym_prices=False, NB=3)
+        for v in ("spot-fees-latency", "feature", "future", "chain"):
+            for s in full[::4]:
                 add(v, scenario="interleave", schedule=s, sym_prices=False, NB=3)
-        for s in scheds:
+            for s in scheds:
+                add(v, scenario="interleave", schedule=s, **inter)
+        for s in scheds[::2]:
             add("spot", scenario="interleave", schedule=s, NB=2)          # symbolic prices
-        for v in ("spot", "spot-fees-latency"):
-            for scen in ("repeat", "abandon", "fresh"):
-                add(v, scenario=scen, N=4)
+        for scen in ("repeat", "fresh"):
+            add("spot", scenario=scen, N=4)
     # de-duplicate ids
     seen, uniq = set(), []
     for cfg in out:
@@ -289,7 +292,10 @@ BOUNDS = {"quick": "grids of 3 timesteps; repeat / abandon after j steps / faile
                    "delay, feature-with-history and single-future configurations (symbolic prices); two environments "
                    "(A: reset+2 steps, B: reset+1 step, concrete distinct prices, symbolic independent timelines): all "
                    "10 interleavings for spot, 4 for future / chain / feature configurations",
-          "thorough": "A and B both reset+2 steps: all 20 interleavings for every configuration incl. chains; grids of 4"}
+          "thorough": "A and B both reset+2 steps: all 20 interleavings for spot, 5 for the other configurations; all 10 "
+                      "(reset+2) x (reset+1) interleavings for every configuration incl. chains; symbolic prices for 5 "
+                      "spot interleavings; grid of 4 for repeat/fresh (the full 20 x 5 matrix with chains did not finish "
+                      "in 45 minutes)"}
 OUTSIDE = ["more than two environments", "threads (the API is synchronous)"]
 STUBS = ["builtin float() shadowed in tradingenv.rewards"]
 DEADLINE_S = {"quick": 900, "thorough": 5400}
